@@ -22,7 +22,6 @@ PROPS["C01"] = {
         {"mod": "verif_kani_c01_ops", "host": "engine/src/ast/field_expr.rs", "file": "engine/c01_ops.rs"},
         {"mod": "verif_kani_c07", "host": "engine/src/ast/logical_expr.rs", "file": "engine/c07_tokens.rs"},
         {"mod": "verif_kani_cmp", "host": "engine/src/scheme.rs", "file": "engine/cmp_arms.rs"},
-        {"mod": "verif_kani_parse", "host": "engine/src/scheme.rs", "file": "engine/parse_logic.rs"},
         {"mod": "verif_kani_exec", "host": "engine/src/scheme.rs", "file": "engine/exec_kernels.rs"},
     ],
     "harnesses": [
@@ -97,7 +96,7 @@ PROPS["C09"] = {
          "encodes": ["ComparisonExpr::compile_with_compiler (real match on the operator, comparator construction, nil default) with IndexExpr::compile_with stubbed by the harness continuation"],
          "symbolic": "probe i64, empty list", "bound": "0 items", "oracle": "false", "min_covers": 1,
          "stubs": ["IndexExpr::compile_with -> harness continuation applying the built comparator to a symbolic value", "rand::rngs::thread::rng -> unreachable"]},
-        {"name": "c09_oneof_ip", "mod": "verif_kani_cmp", "big": True, "timeout": 1800, "mem_gb": 24, "rss_gb": 8,
+        {"name": "c09_oneof_ip", "mod": "verif_kani_cmp", "big": True, "tier": "thorough", "core": False, "timeout": 3000, "mem_gb": 40, "rss_gb": 20, "unwindset": [["memcmp", 18], ["chaining_impl", 10]],
          "encodes": ["ComparisonExpr::compile_with_compiler (real match on the operator, comparator construction, nil default) with IndexExpr::compile_with stubbed by the harness continuation"],
          "symbolic": "probe (family + u128); list {v4 CIDR a/len, explicit v6 range, single v4 address}", "bound": "3 items, unwind 18", "oracle": "membership in an item of the same family only; absent: false", "min_covers": 5,
          "stubs": ["IndexExpr::compile_with -> harness continuation applying the built comparator to a symbolic value", "rand::rngs::thread::rng -> unreachable"]},
@@ -117,9 +116,9 @@ PROPS["C09"] = {
          "encodes": ["RangeSet::<Ipv4Addr>::from", "RangeSet::contains"],
          "symbolic": "3 IPv4 ranges + probe, full u32", "bound": "3 ranges, unwind 6",
          "oracle": "exists i: start_i <= x <= end_i", "min_covers": 5},
-        {"name": "c09_rangeset_v6_n2", "mod": "verif_kani_c09", "timeout": 900, "mem_gb": 8,
+        {"name": "c09_rangeset_v6_n2", "mod": "verif_kani_c09", "timeout": 1200, "mem_gb": 16, "rss_gb": 8, "unwindset": [["memcmp", 18], ["chaining_impl", 10]],
          "encodes": ["RangeSet::<Ipv6Addr>::from", "RangeSet::contains"],
-         "symbolic": "2 IPv6 ranges + probe, full u128", "bound": "2 ranges, unwind 5",
+         "symbolic": "2 IPv6 ranges + probe, full u128", "bound": "2 ranges, unwind 5 (memcmp 18, slice-compare 10)",
          "oracle": "exists i: start_i <= x <= end_i", "min_covers": 5},
         {"name": "c09_cidr_v4_bounds", "mod": "verif_kani_c09_ip", "timeout": 600, "mem_gb": 8,
          "encodes": ["<ExplicitIpRange as From<IpRange>>::from", "From<IpCidr>", "From<Ipv4Cidr>", "cidr::Ipv4Cidr::new/first_address/last_address"],
@@ -143,7 +142,7 @@ PROPS["C09"] = {
          "oracle": "exists i: start_i <= x <= end_i", "min_covers": 5},
         {"name": "c09_rangeset_v6_n3", "mod": "verif_kani_c09", "tier": "thorough", "core": False, "timeout": 2400, "mem_gb": 16,
          "encodes": ["RangeSet::<Ipv6Addr>::from", "RangeSet::contains"],
-         "symbolic": "3 IPv6 ranges + probe, full u128", "bound": "3 ranges, unwind 6",
+         "symbolic": "3 IPv6 ranges + probe, full u128", "bound": "3 ranges, unwind 18",
          "oracle": "exists i: start_i <= x <= end_i", "min_covers": 5},
     ],
     "not_covered": "lists longer than the stated sizes, the per-family split and CIDR conversion inside "
@@ -157,7 +156,7 @@ PROPS["C17"] = {
         {"mod": "verif_kani_cmp", "host": "engine/src/scheme.rs", "file": "engine/cmp_arms.rs"},
     ],
     "harnesses": [
-        {"name": "c17_inlist_delegation", "mod": "verif_kani_cmp", "big": True, "timeout": 1200, "mem_gb": 24, "rss_gb": 6,
+        {"name": "c17_inlist_delegation", "mod": "verif_kani_cmp", "big": True, "tier": "thorough", "core": False, "timeout": 1200, "mem_gb": 24, "rss_gb": 6,
          "encodes": ["ComparisonExpr::compile_with_compiler (real match on the operator, comparator construction, nil default) with IndexExpr::compile_with stubbed by the harness continuation"],
          "symbolic": "value i64, matcher answer bool; scheme with two lists (Ip, Int)", "bound": "unwind 5", "oracle": "answer = installed matcher's answer, asked once with the list's matcher, the name and the value; absent: false", "min_covers": 2,
          "stubs": ["IndexExpr::compile_with -> harness continuation applying the built comparator to a symbolic value", "rand::rngs::thread::rng -> unreachable"]},
@@ -386,9 +385,13 @@ PROPS["C11"] = {
         {"mod": "verif_kani_cmp", "host": "engine/src/scheme.rs", "file": "engine/cmp_arms.rs"},
     ],
     "harnesses": [
-        {"name": "c11_wildcard_arms", "mod": "verif_kani_cmp", "big": True, "timeout": 1200, "mem_gb": 24, "rss_gb": 6,
+        {"name": "c11_wildcard_arm_ci", "mod": "verif_kani_cmp", "big": True, "timeout": 1200, "mem_gb": 24, "rss_gb": 6,
          "encodes": ["ComparisonExpr::compile_with_compiler (real match on the operator, comparator construction, nil default) with IndexExpr::compile_with stubbed by the harness continuation"],
-         "symbolic": "value <= 2 bytes, strict flag, pattern a*", "bound": "unwind 8", "oracle": "Wildcard arm folds ASCII case, StrictWildcard arm does not; absent: false", "min_covers": 3,
+         "symbolic": "value <= 2 bytes, pattern a*, `wildcard` node", "bound": "unwind 8", "oracle": "Wildcard arm folds ASCII case, StrictWildcard arm does not; absent: false", "min_covers": 3,
+         "stubs": ["IndexExpr::compile_with -> harness continuation applying the built comparator to a symbolic value", "rand::rngs::thread::rng -> unreachable"]},
+        {"name": "c11_wildcard_arm_strict", "mod": "verif_kani_cmp", "big": True, "timeout": 1200, "mem_gb": 24, "rss_gb": 6,
+         "encodes": ["ComparisonExpr::compile_with_compiler (real match on the operator, comparator construction, nil default) with IndexExpr::compile_with stubbed by the harness continuation"],
+         "symbolic": "value <= 2 bytes, pattern a*, `strict wildcard` node", "bound": "unwind 8", "oracle": "Wildcard arm folds ASCII case, StrictWildcard arm does not; absent: false", "min_covers": 3,
          "stubs": ["IndexExpr::compile_with -> harness continuation applying the built comparator to a symbolic value", "rand::rngs::thread::rng -> unreachable"]},
 
         {"name": "c11_wildcard_ci_p1", "mod": "verif_kani_c11", "timeout": 1200, "mem_gb": 12,
@@ -464,9 +467,9 @@ PROPS["C07"] = {
     ],
     "harnesses": [
         {"name": "c07_hash_streaming", "mod": "verif_kani_c20k", "timeout": 900, "mem_gb": 10,
-         "encodes": ["ffi::HasherWrite::write", "HasherWrite::write_all", "fnv::FnvHasher"],
-         "symbolic": "<= 5 bytes, cut point", "bound": "5 bytes, unwind 8",
-         "oracle": "hash(write(a); write(b)) == hash(write(a ++ b)); one-byte documents collide iff equal", "min_covers": 2},
+         "encodes": ["ffi::HasherWrite::write", "HasherWrite::write_all", "HasherWrite::flush"],
+         "symbolic": "<= 5 bytes, cut point, two single bytes", "bound": "5 bytes, unwind 8",
+         "oracle": "the wrapped hasher receives exactly the written bytes in order whatever the chunking; one-byte documents hash equal iff equal", "min_covers": 2},
     ],
     "not_covered": "whitespace/alias independence of whole filters, the JSON serialisation, same-operator flattening, "
                    "manual Eq/Hash impls (AST and serde code are outside what CBMC decides here); the C-API hash is "
@@ -532,14 +535,8 @@ _PENC = ["<LogicalExpr as LexWith>::lex_with", "LogicalExpr::lex_simple_expr", "
          "<IdentifierExpr as LexWith>::lex_with", "<Identifier as LexWith>::lex_with",
          "FilterParser::with_increased_nesting"]
 
-_PENDING_C13_PARSE = (_PARSE_MOD, {
-    "name": "c13_parse_nesting_sites", "mod": "verif_kani_parse", "big": True, "timeout": 1500, "mem_gb": 24, "rss_gb": 8,
-    "encodes": _PENC, "symbolic": "nesting limit u16; text one of `!(!(a))`, `((a)) || !b`, `a && b`",
-    "bound": "fixed texts, unwind 6",
-    "oracle": "accepted iff nesting depth (4, 2, 0) <= limit; the error reports the limit", "min_covers": 4,
-    "stubs": _PSTUB})
 _define("C03", _EXEC_MOD, {
-    "name": "c03_optional_defaults", "mod": "verif_kani_exec", "big": True, "timeout": 1200, "mem_gb": 24, "rss_gb": 6,
+    "name": "c03_optional_defaults", "mod": "verif_kani_exec", "big": True, "tier": "thorough", "core": False, "timeout": 3000, "mem_gb": 40, "rss_gb": 30,
     "encodes": ["SimpleFunctionDefinition::compile (closure)", "ExactSizeChain", "arg_count"],
     "symbolic": "defaults d0,d1 (i64), supplied values (3 x i64), number supplied 1..3",
     "bound": "1 mandatory + 2 optional params, unwind 6",
@@ -592,27 +589,34 @@ PROPS["C12"] = {
          "symbolic": "argument kind (index / literal / logical), literal value", "bound": "one walk step, 3 arguments, unwind 5",
          "oracle": "comparison -> lhs; index -> field or call; call -> every argument in order, then the function; literal -> nothing",
          "min_covers": 2},
-        {"name": "c12_uses_single_comparison", "mod": "verif_kani_c12", "big": True, "timeout": 1200, "mem_gb": 24, "rss_gb": 6,
+        {"name": "c12_uses_comparison_plain", "mod": "verif_kani_c12", "big": True, "tier": "thorough", "core": False, "timeout": 1200, "mem_gb": 24, "rss_gb": 6,
          "encodes": ["UsesVisitor (visit_expr, visit_value_expr, visit_field)", "UsesListVisitor::visit_comparison_expr",
                      "LogicalExpr::walk", "ComparisonExpr::walk", "IndexExpr::walk", "FieldRef == Field"],
-         "symbolic": "queried field index, used field index (4x4), `in $list` or not", "bound": "one comparison node, unwind 5",
+         "symbolic": "queried field index, used field index (4x4)", "bound": "one comparison node (bare boolean), unwind 2",
+         "oracle": "uses iff same field of the same scheme; uses_list iff additionally an `in $list` comparison", "min_covers": 3},
+        {"name": "c12_uses_comparison_in_list", "mod": "verif_kani_c12", "big": True, "tier": "thorough", "core": False, "timeout": 1200, "mem_gb": 24, "rss_gb": 6,
+         "encodes": ["UsesVisitor (visit_expr, visit_value_expr, visit_field)", "UsesListVisitor::visit_comparison_expr",
+                     "LogicalExpr::walk", "ComparisonExpr::walk", "IndexExpr::walk", "FieldRef == Field"],
+         "symbolic": "queried field index, used field index (4x4)", "bound": "one comparison node (`in $list`), unwind 2",
          "oracle": "uses iff same field of the same scheme; uses_list iff additionally an `in $list` comparison", "min_covers": 3},
     ],
     "not_covered": "the composition of walk steps over whole trees (deep nesting, function arguments at depth), name "
                    "resolution through the registry, unknown-name errors, FilterValueAst",
 }
 
-_define("C10", _CMP_MOD, {
-    "name": "c10_contains_dispatch_table", "mod": "verif_kani_cmp", "big": True, "timeout": 2400, "mem_gb": 24, "rss_gb": 10,
-    "encodes": ["ComparisonExpr::compile_with_compiler (Contains arm: all 15 length arms 2..=16, slice_to_array::<N>)",
-                "Avx2Searcher::<[u8; N]>::with_position / search_in (equal-length path)"],
-    "symbolic": "16 pattern bytes, anchor in the passed range, 'last byte differs' flag; lengths 2..=16 enumerated by unrolling",
-    "bound": "15 lengths, unwind 19",
-    "oracle": "pattern found in itself, not found in a copy whose last byte differs; anchor within 1..len", "min_covers": 2,
-    "stubs": ["IndexExpr::compile_with -> harness continuation", "rand::rngs::thread::rng -> unreachable",
-              "rewrite R2", "rewrite R1"]})
+for _n in range(2, 17):
+    _define("C10", _CMP_MOD, {
+        "name": "c10_contains_len_%02d" % _n, "mod": "verif_kani_cmp", "big": True, "timeout": 1200, "mem_gb": 24, "rss_gb": 5,
+        "encodes": ["ComparisonExpr::compile_with_compiler (Contains arm: length arm %d, slice_to_array::<%d>)" % (_n, _n),
+                    "Avx2Searcher::<[u8; %d]>::with_position / search_in (equal-length path)" % _n],
+        "symbolic": "%d pattern bytes, anchor in the passed range, 'last byte differs' flag" % _n,
+        "bound": "pattern %d, value of the same length, unwind 3 (memcmp: 18)" % _n,
+        "cbmc_args": ["--unwindset", "memcmp.0:18"],
+        "oracle": "pattern found in itself, not found in a copy whose last byte differs; anchor within 1..len", "min_covers": 2,
+        "stubs": ["IndexExpr::compile_with -> harness continuation", "rand::rngs::thread::rng -> unreachable",
+                  "rewrite R2", "rewrite R1"]})
 _define("C09", _CMP_MOD, {
-    "name": "c09_oneof_bytes", "mod": "verif_kani_cmp", "big": True, "timeout": 1800, "mem_gb": 24, "rss_gb": 8,
+    "name": "c09_oneof_bytes", "mod": "verif_kani_cmp", "big": True, "tier": "thorough", "core": False, "timeout": 3000, "mem_gb": 40, "rss_gb": 20,
     "encodes": ["ComparisonExpr::compile_with_compiler (OneOf/Bytes arm: BTreeSet construction, Contains comparator)"],
     "symbolic": "one 2-byte and one 1-byte item, probe <= 2 bytes", "bound": "2 items, unwind 8",
     "oracle": "probe equals some listed byte string; absent => false", "min_covers": 3,
@@ -633,20 +637,20 @@ _define("C17", {"mod": "verif_kani_c17", "host": "engine/src/list_matcher.rs", "
 
 _C06_MOD = {"mod": "verif_kani_c06", "host": "engine/src/rhs_types/bytes.rs", "file": "engine/c06_bytes.rs"}
 _define("C06", _C06_MOD, {
-    "name": "c06_int_range_rule", "mod": "verif_kani_c06", "timeout": 900, "mem_gb": 12,
-    "encodes": ["<IntRange as Lex>::lex"], "symbolic": "both bound values (full i64), single value vs a..b",
-    "bound": "fixed text, unwind 5", "oracle": "accepted iff a <= b, denotes a..=b; single value v..=v; consumes exactly the literal",
-    "min_covers": 4, "stubs": ["<i64 as Lex>::lex -> consumes one character, returns an arbitrary i64"]})
+    "name": "c06_int_range_rule", "mod": "verif_kani_c06", "timeout": 1200, "mem_gb": 28, "rss_gb": 16,
+    "encodes": ["<IntRange as Lex>::lex"], "symbolic": "both bound values (full i64)",
+    "bound": "fixed text `1..2;`, unwind 3", "oracle": "accepted iff a <= b, denotes a..=b; consumes exactly the literal",
+    "min_covers": 3, "stubs": ["<i64 as Lex>::lex -> consumes one character, returns an arbitrary i64"]})
 _define("C06", _C06_MOD, {
-    "name": "c06_index_literal_rule", "mod": "verif_kani_c06", "timeout": 900, "mem_gb": 12,
+    "name": "c06_index_literal_rule", "mod": "verif_kani_c06", "timeout": 1200, "mem_gb": 28, "rss_gb": 16,
     "encodes": ["<FieldIndex as Lex>::lex", "<RhsValue as LexWith<Type>>::lex_with (Int arm)"],
-    "symbolic": "index value (full i64)", "bound": "fixed text, unwind 5",
+    "symbolic": "index value (full i64)", "bound": "fixed text `7]`, unwind 2",
     "oracle": "accepted iff 0 <= n <= 2^32-1, denotes n", "min_covers": 4,
     "stubs": ["<i64 as Lex>::lex -> consumes one character, returns an arbitrary i64"]})
 _define("C06", {"mod": "verif_kani_c09_ip", "host": "engine/src/rhs_types/ip.rs", "file": "engine/c09_ip.rs"}, {
     "name": "c06_ip_range_rule", "mod": "verif_kani_c09_ip", "timeout": 900, "mem_gb": 12,
     "encodes": ["<IpRange as Lex>::lex (explicit range branch)", "match_addr_or_cidr"],
-    "symbolic": "both bounds (family + u128)", "bound": "fixed text, unwind 8",
+    "symbolic": "both bounds (family + u128)", "bound": "fixed text, unwind 18",
     "oracle": "accepted iff same family and first <= last; bounds preserved", "min_covers": 4,
     "stubs": ["rhs_types::ip::parse_addr -> arbitrary address"]})
 _share("C09", "c06_ip_range_rule")
@@ -659,22 +663,27 @@ _define("C20", _C20K, {
     "encodes": ["MatchingResult::{PANIC,ERROR}", "UsingResult::ERROR", "Status discriminants"],
     "symbolic": "none (constant table)", "bound": "loop-free",
     "oracle": "match panic -> Status::Panic; errors -> Status::Error; Success == 0", "min_covers": 1})
-_define("C20", _C20K, {
-    "name": "c20_last_error_replaced", "mod": "verif_kani_c20k", "timeout": 1500, "mem_gb": 16, "rss_gb": 8,
-    "encodes": ["write_last_error!", "LAST_ERROR thread-local", "wirefilter_get_last_error", "wirefilter_clear_last_error",
-                "CString::clear / fmt::Write"],
-    "symbolic": "two 2-byte ASCII messages", "bound": "2 writes, unwind 8",
-    "oracle": "after two failures the buffer holds exactly the second message (NUL -> 0x1A), NUL-terminated; clear -> NULL",
-    "min_covers": 2})
 
 _C07_MOD = {"mod": "verif_kani_c07", "host": "engine/src/ast/logical_expr.rs", "file": "engine/c07_tokens.rs"}
-_define("C07", _C07_MOD, {
-    "name": "c07_alias_tables", "mod": "verif_kani_c07", "timeout": 900, "mem_gb": 12,
-    "encodes": ["<LogicalOp as Lex>::lex", "<UnaryOp as Lex>::lex", "<QuantifierOp as Lex>::lex", "<OrderingOp as Lex>::lex",
-                "<IntOp as Lex>::lex", "<BytesOp as Lex>::lex", "<ComparisonOp as Lex>::lex (lex_enum! tables)"],
-    "symbolic": "none (constant table of 31 concrete token texts; symbolic token text is out of reach, DESIGN 3.2 e)",
-    "bound": "tokens <= 15 chars, unwind 18",
-    "oracle": "every alias lexes to its operator, both aliases of a pair to the same one, exactly the alias consumed",
-    "min_covers": 1})
-_share("C01", "c07_alias_tables")
 _share("C07", "c01_precedence_order")
+
+_define("C09", _CMP_MOD, {
+    "name": "c09_oneof_ip_v4_item", "mod": "verif_kani_cmp", "big": True, "timeout": 1500, "mem_gb": 24, "rss_gb": 8,
+    "encodes": ["ComparisonExpr::compile_with_compiler (OneOf/Ip arm: family split, CIDR -> range, RangeSet, OneOfIp comparator)"],
+    "symbolic": "IPv4 CIDR a/len, probe of either family (family + u128)", "bound": "1 item, unwind 6",
+    "oracle": "true iff the probe is IPv4 and shares the prefix; IPv4-mapped IPv6 probes are IPv6; absent => false",
+    "min_covers": 4,
+    "stubs": ["IndexExpr::compile_with -> harness continuation", "rand::rngs::thread::rng -> unreachable"]})
+_define("C09", _CMP_MOD, {
+    "name": "c09_oneof_ip_v6_item", "mod": "verif_kani_cmp", "big": True, "tier": "thorough", "core": False, "timeout": 3000, "mem_gb": 40, "rss_gb": 20,
+    "unwindset": [["memcmp", 18], ["chaining_impl", 10]],
+    "encodes": ["ComparisonExpr::compile_with_compiler (OneOf/Ip arm)"],
+    "symbolic": "explicit IPv6 range lo..hi (u128), probe of either family", "bound": "1 item, unwind 5 (memcmp 18, slice-compare 10)",
+    "oracle": "true iff the probe is IPv6 and inside; absent => false", "min_covers": 3,
+    "stubs": ["IndexExpr::compile_with -> harness continuation", "rand::rngs::thread::rng -> unreachable"]})
+
+_define("C06", _C06_MOD, {
+    "name": "c06_int_single_rule", "mod": "verif_kani_c06", "timeout": 1200, "mem_gb": 28, "rss_gb": 16,
+    "encodes": ["<IntRange as Lex>::lex"], "symbolic": "the value (full i64)",
+    "bound": "fixed text `1;`, unwind 3", "oracle": "a single value v denotes v..=v", "min_covers": 1,
+    "stubs": ["<i64 as Lex>::lex -> consumes one character, returns an arbitrary i64"]})
